@@ -570,7 +570,6 @@ func (vfs *OrefaFS) Open(name string) (avfs.File, error) {
 func (vfs *OrefaFS) OpenFile(name string, flag int, perm fs.FileMode) (avfs.File, error) {
 	const op = "open"
 
-	at := int64(0)
 	om := avfs.ToOpenMode(flag)
 
 	absPath, _ := vfs.Abs(name)
@@ -623,10 +622,6 @@ func (vfs *OrefaFS) OpenFile(name string, flag int, perm fs.FileMode) (avfs.File
 				child.truncate(0)
 				child.mu.Unlock()
 			}
-
-			if om&avfs.OpenAppend != 0 {
-				at = child.Size()
-			}
 		}
 	}
 
@@ -636,7 +631,6 @@ func (vfs *OrefaFS) OpenFile(name string, flag int, perm fs.FileMode) (avfs.File
 		openMode: om,
 		name:     name,
 		absPath:  absPath,
-		at:       at,
 	}
 
 	return f, nil
